@@ -335,6 +335,7 @@ func reduceUndirectedMultiplex(g UndirectedMultiplex, communities [][]graph.Node
 				var out []int
 				uid := u.ID()
 				ucid := communityOf[uid]
+				r.nodes[ucid].weights[l] = sign * weight(uid, uid)
 				to := layer.From(uid)
 				for to.Next() {
 					vid := to.Node().ID()
